@@ -163,13 +163,19 @@ def rounds_of(cfg, evs, activation=False):
     Returns list of dict(pend, cur, cancelled, made)."""
     rounds, cur = [], None
     head_guard = cfg.head and cfg.defined(255, "entryGuard")
+    last_delivery = None
     for e in evs:
         start = False
-        if e.kind == "cb" and e.layer == "S":
-            if not activation:
-                start = e.method == "exitGuard"
-            else:
-                start = e.method == "entryGuard" and (e.sid == 255 if head_guard else True)
+        if e.kind == "cb":
+            # a delivery = the callbacks of all layers (injections first, then the state's own) with one (method, state, occurrence)
+            delivery = (e.method, e.sid, e.occ)
+            fresh = delivery != last_delivery
+            last_delivery = delivery
+            if fresh:
+                if not activation:
+                    start = e.method == "exitGuard"
+                else:
+                    start = e.method == "entryGuard" and (e.sid == 255 if head_guard else True)
         if start:
             cur = {"pend": e.f.get("pend"), "cur": e.f.get("cur"), "cancelled": False, "views": []}
             rounds.append(cur)
@@ -253,7 +259,7 @@ def c02(cfg, events, case=None):
 def c02_outcome(cfg, events):
     """outcome = destination of the last request that survived its guards (needs every guard and
     lifecycle callback visible)"""
-    if not cfg.all_defined(GUARDS + LIFE) or any(cfg.inj):
+    if not cfg.all_defined(GUARDS + LIFE):
         return None
     last_act = {}
     for (inst, op), evs in ops_of(events):
@@ -543,7 +549,7 @@ def latest_request(cfg, events, case):
         last = ext.get(inst) if w[0] in ("update", "react") and not rejected else None
         if w[0] not in neutral or w[0] in ("copy",):
             ext.pop(inst, None)
-        if w[0] in PROCESSING and not rejected and cfg.all_defined(GUARDS) and not any(cfg.inj):
+        if w[0] in PROCESSING and not rejected and cfg.all_defined(GUARDS):
             lo = leftover_request(cfg, evs)
             if lo is not None:
                 ext[inst] = lo      # never vetoed, never replaced: it stays outstanding for the next processing call
@@ -577,7 +583,7 @@ def c07(cfg, events, case=None):
     if v:
         return v
     # the surviving request is what enter()/reenter()/exit() see as current
-    if cfg.all_defined(GUARDS + LIFE) and not any(cfg.inj):
+    if cfg.all_defined(GUARDS + LIFE):
         for (inst, op), evs in ops_of(events):
             api = next((e for e in evs if e.kind == "api"), None)
             if api is not None and api.name in ("construct", "enter") + PROCESSING and not any(e.kind == "rejected" for e in evs):
@@ -710,6 +716,7 @@ def plan_walk(cfg, events, case, want):
                     active_failed = succ_now = False     # clear() wipes every status bit
         if cyc:
             before = known.get(inst)
+            outst_before = dict(outst.get(inst, {}))      # outstanding successes as the plan step finds them
             # ---- the plan step
             if want == "C08":
                 for (o, d) in fires:
@@ -766,6 +773,9 @@ def plan_walk(cfg, events, case, want):
                         if e.method == "planFailed" and fail_out.get(inst) is False:
                             return "op%d: planFailed() delivered but no failure was reported since the statuses were last cleared: %s" % (op, e.raw)
                         if e.method == "planSucceeded":
+                            reported_now = any(x.kind == "do" and x.text.split()[0] == "succeed" for x in phase)
+                            if a is not None and outst_before.get(a) is False and not reported_now:
+                                return "op%d: planSucceeded() delivered although the success report of the active state %d was already consumed / cleared and nobody reported success in this cycle: %s" % (op, a, e.raw)
                             if succ_out.get(inst) is False:
                                 return "op%d: planSucceeded() delivered but no success was reported since the statuses were last cleared: %s" % (op, e.raw)
                             if parse_plan(e.f.get("plan")):
@@ -943,6 +953,56 @@ def c14(cfg, events, case=None):
     return None
 
 
+# ------------------------------------------------------------------------------------------ C15 (machine level)
+def expected_layers(cfg, sid, m):
+    row = cfg.n if sid == 255 else sid
+    k = cfg.inj[row] if row < len(cfg.inj) else 0
+    inj = ["I%d" % i for i in range(k)]
+    if m in ("entryGuard", "enter", "reenter", "preUpdate", "update", "preReact", "react"):
+        seq = inj + ["S"]
+    elif m in ("postUpdate", "postReact", "exit"):
+        seq = ["S"] + inj[::-1]
+    elif m == "exitGuard":
+        seq = inj[::-1] + ["S"]
+    elif m == "query":
+        seq = ["S"] + inj
+    else:
+        seq = ["S"]
+    if not cfg.defined(sid, m):
+        seq = [x for x in seq if x != "S"]
+    return seq
+
+
+def c15(cfg, events, case=None):
+    """every delivery reaches each injection and the state's own callback exactly once, in the documented order:
+    injections first (declaration order) for the entering / pre / main callbacks, the state first and the
+    injections in reverse for exit / postUpdate / postReact"""
+    cur, layers, first = None, [], None
+    def check():
+        if cur is None:
+            return None
+        exp = expected_layers(cfg, cur[4], cur[3])
+        if layers != exp:
+            return "op%d: %s of state %d reached the layers %s, expected %s: %s" % (cur[1], cur[3], cur[4], layers, exp, first)
+        return None
+    for e in events:
+        if e.kind != "cb":
+            if e.kind in ("api", "rejected"):
+                v = check()
+                if v:
+                    return v
+                cur, layers = None, []
+            continue
+        key = (e.inst, e.op, e.occ, e.method, e.sid)
+        if key != cur:
+            v = check()
+            if v:
+                return v
+            cur, layers, first = key, [], e.raw
+        layers.append(e.layer)
+    return check()
+
+
 # ------------------------------------------------------------------------------------------ metamorphic twins (implementation only)
 def strip_logs(lines):
     return [l for l in lines if not l.startswith("log ")]
@@ -1101,8 +1161,8 @@ def metamorphic(prop, case, impl_lines, rerun):
 
 
 ORACLES = {"C01": c01, "C02": c02, "C03": c02, "C04": c04, "C05": c05, "C06": c06, "C11": c02, "C12": c12,
-           "C14": c14, "C07": c07, "C08": c08, "C09": c09, "C10": c10, "C16": c16, "C17": c17}
-NEEDS_CASE = ("C02", "C03", "C06", "C07", "C08", "C09", "C10", "C11", "C14", "C16", "C17")
+           "C14": c14, "C15": c15, "C07": c07, "C08": c08, "C09": c09, "C10": c10, "C16": c16, "C17": c17}
+NEEDS_CASE = ("C02", "C03", "C06", "C07", "C08", "C09", "C10", "C11", "C14", "C15", "C16", "C17")
 
 
 def run(prop, case, impl_lines, rerun=None):
@@ -1117,7 +1177,7 @@ def run(prop, case, impl_lines, rerun=None):
             cfg_line = case[1]
         cfg, evs = Cfg(cfg_line), parse(impl_lines)
         if prop in NEEDS_CASE:
-            if case is None and prop not in ("C02", "C03", "C06", "C11", "C14"):
+            if case is None and prop not in ("C02", "C03", "C06", "C11", "C14", "C15"):
                 return None
             v = f(cfg, evs, case)
             return v or metamorphic(prop, case, impl_lines, rerun)
